@@ -93,6 +93,13 @@ where
     #[allow(clippy::needless_continue)]
     fn poll_next(self: Pin<&mut Self>, cx: &mut Context<'_>) -> Poll<Option<Self::Item>> {
         let fair_queue = self.get_mut();
+        // Number of streams that answered `Pending` during this call. A stream
+        // may wake its waker while it is being polled (tokio's cooperative
+        // budget does exactly that); its event is then queued again at once, and
+        // polling it over and over here would never let the executor run.
+        let mut pending_polls = 0usize;
+        // `cx` is shadowed by the per-stream context further down.
+        let task_waker = cx.waker();
         loop {
             let (event, mut io_stream) = {
                 let mut inner = fair_queue.inner.lock();
@@ -139,6 +146,14 @@ where
                 Poll::Pending => {
                     let mut inner = fair_queue.inner.lock();
                     inner.streams.insert(event.key, io_stream);
+                    pending_polls += 1;
+                    if pending_polls > inner.streams.len() {
+                        // Every stream had its turn: yield to the executor, but
+                        // ask to be polled again since events are still queued.
+                        drop(inner);
+                        task_waker.wake_by_ref();
+                        return Poll::Pending;
+                    }
                     continue;
                 }
             }
